@@ -70,6 +70,8 @@ struct StatementInfo {
     locals_size: usize,
     /// The lower bound of an ap-change to the furthest return from the statement.
     known_ap_change_to_return: Option<usize>,
+    /// Whether no return is reachable from the statement (e.g. a match on an empty enum).
+    never_returns: bool,
     /// The ap tracking information per statement.
     tracking_info: Option<ApTrackingInfo>,
     /// The effective ap change from the statement's base.
@@ -143,7 +145,14 @@ impl<'a, TokenUsages: Fn(StatementIdx, CostTokenType) -> usize>
         idx: StatementIdx,
     ) -> Result<(), ApChangeError> {
         let mut max_change = 0;
+        let mut never_returns =
+            !matches!(self.program.get_statement(idx), Some(Statement::Return(_)));
         for (ap_change, target) in &self.branches[idx.0] {
+            // A branch that never reaches a return does not affect the function's ap-change.
+            if self.infos[target.0].never_returns {
+                continue;
+            }
+            never_returns = false;
             let Some(target_ap_change) = self.infos[target.0].known_ap_change_to_return else {
                 return Ok(());
             };
@@ -155,6 +164,7 @@ impl<'a, TokenUsages: Fn(StatementIdx, CostTokenType) -> usize>
                 return Ok(());
             };
         }
+        self.infos[idx.0].never_returns = never_returns;
         self.infos[idx.0].known_ap_change_to_return = Some(max_change);
         Ok(())
     }
